@@ -5206,16 +5206,23 @@ class Entity(object, metaclass=EntityMeta):
                             if attr in avdict: vals[i] = avdict[attr]
                         new_vals = tuple(vals)
                         cache.update_composite_index(obj, attrs, prev_vals, new_vals, undo)
+                old_vals = {attr: get_val(attr, NOT_LOADED) for attr in avdict}
+                def undo_vals():
+                    for attr, old_val in old_vals.items():
+                        if old_val is NOT_LOADED: obj._vals_.pop(attr, None)
+                        else: obj._vals_[attr] = old_val
+                undo_funcs.append(undo_vals)
+                # (as in Attribute.__set__: the new values are in place before the reverse sides are updated,
+                # a collection passed in the same call can contain the object itself)
+                obj._vals_.update(avdict)
                 for attr, new_val in avdict.items():
                     if not attr.reverse: continue
-                    old_val = get_val(attr, NOT_LOADED)
-                    attr.update_reverse(obj, old_val, new_val, undo_funcs)
+                    attr.update_reverse(obj, old_vals[attr], new_val, undo_funcs)
                 for attr, new_val in collection_avdict.items():
                     attr.__set__(obj, new_val, undo_funcs)
             except:
                 for undo_func in reversed(undo_funcs): undo_func()
                 raise
-        obj._vals_.update(avdict)
     def _keyargs_to_avdicts_(obj, kwargs):
         avdict, collection_avdict = {}, {}
         get_attr = obj._adict_.get
